@@ -112,3 +112,16 @@ Theorem register_overwritten_before_ack_refuted :
                             /\ listed st (reg_key 1 1) = false
             | [] => False end).
 Proof. exact register_overwritten_before_ack_refuted_lemma. Qed.
+
+
+(* --- what the owner's signature covers (Transaction::bytes_to_sign, coverage re-read from the source) --- *)
+
+Theorem tx_signed_bytes_injective : forall o ps c outs o' ps' c' outs',
+  tx_msg o ps c outs = tx_msg o' ps' c' outs' -> o = o' /\ ps = ps' /\ c = c' /\ outs = outs'.
+Proof. exact tx_signed_bytes_injective_lemma. Qed.
+
+(* altering any field of a signed transaction -- owner, a parent, the content, an output's key or an output's
+   content -- makes verification fail: two verifying transactions with the same signature are equal *)
+Theorem tampered_tx_invalid : forall t t',
+  tx_valid t = true -> tx_valid t' = true -> t_sig t' = t_sig t -> t' = t.
+Proof. exact tampered_tx_invalid_lemma. Qed.
